@@ -108,6 +108,42 @@ def normalisation_rules(ctx, rep):
                   "finalisation is skipped only in view / stdout-output mode (single producer of errors there: the scanner)", cr)
 
 
+def process_consumers(f, ev):
+    """{(check given, view given, filter set, output mode): ([consumer threads started], undecided?)} — fastpasta::process
+    evaluated for each of the 24 combinations with the configuration accessors replaced by the combination's values"""
+    from ..thir import Agg as _Agg, Sym as _Sym, Cond as _Cond, Unsupported as _Uns
+    pr = "fastpasta::process"
+    some = lambda x: _Agg("core::option::Option", "Some", {"0": x})
+    none = _Agg("core::option::Option", "None", {})
+    dom = [k for k in f.adts if k.endswith("::DataOutputMode")]
+    out = {}
+    for chk in (False, True):
+        for vw in (False, True):
+            for flt in (False, True):
+                for om in ("None", "File", "Stdout"):
+                    ev.call_hooks = [
+                        (lambda fn, res: (res or fn).endswith("::check") and "Opt" in (res or fn), lambda n, a, chk=chk: some(_Sym("CHK")) if chk else none),
+                        (lambda fn, res: (res or fn).endswith("::view") and "Opt" in (res or fn), lambda n, a, vw=vw: some(_Sym("VW")) if vw else none),
+                        (lambda fn, res: (res or fn).endswith("::filter_enabled"), lambda n, a, flt=flt: _Cond("true" if flt else "false")),
+                        (lambda fn, res: (res or fn).endswith("::output_mode"), lambda n, a, om=om: _Agg(dom[0] if dom else "DataOutputMode", om, {} if om != "File" else {"0": _Sym("P")})),
+                    ]
+                    ev.watch = lambda c: c.endswith("::spawn_analysis") or c.endswith("::spawn_writer")
+                    und = False
+                    try:
+                        recs_ = [o for o in ev.collect_ifs(pr, [_Sym("cfg"), _Sym("loader"), _Sym("stat_send"), _Sym("stop")]) if "call" in o and not o.get("closure")]
+                    except _Uns as e:
+                        und = "%s" % e
+                        recs_ = []
+                    finally:
+                        ev.call_hooks = []
+                        ev.watch = None
+                    live = [o for o in recs_ if not any(g in ("false", "not true") for g in o["guard"])]
+                    if any(g not in ("true", "not false") for o in live for g in o["guard"]):
+                        und = und or True
+                    out[(chk, vw, flt, om)] = ([o["call"].split("::")[-1] for o in live], und)
+    return out
+
+
 def run(ctx, rep):
     f = ctx.facts()
     cg = ctx.cg()
@@ -242,36 +278,13 @@ def run(ctx, rep):
         # decided for each of the 24 combinations of (check given, view given, filter set, output mode) by evaluating
         # process() with the configuration accessors replaced by the combination's values and counting the consumer
         # threads it starts (a CFG path count would pair branches that exclude each other)
-        from ..thir import Agg as _Agg, Sym as _Sym, Cond as _Cond, Unsupported as _Uns
-        some = lambda x: _Agg("core::option::Option", "Some", {"0": x})
-        none = _Agg("core::option::Option", "None", {})
-        dom = [k for k in f.adts if k.endswith("::DataOutputMode")]
-        many, undecided, n_comb = [], [], 0
-        for chk in (False, True):
-            for vw in (False, True):
-                for flt in (False, True):
-                    for om in ("None", "File", "Stdout"):
-                        n_comb += 1
-                        ev.call_hooks = [
-                            (lambda fn, res: (res or fn).endswith("::check") and "Opt" in (res or fn), lambda n, a, chk=chk: some(_Sym("CHK")) if chk else none),
-                            (lambda fn, res: (res or fn).endswith("::view") and "Opt" in (res or fn), lambda n, a, vw=vw: some(_Sym("VW")) if vw else none),
-                            (lambda fn, res: (res or fn).endswith("::filter_enabled"), lambda n, a, flt=flt: _Cond("true" if flt else "false")),
-                            (lambda fn, res: (res or fn).endswith("::output_mode"), lambda n, a, om=om: _Agg(dom[0] if dom else "DataOutputMode", om, {} if om != "File" else {"0": _Sym("P")})),
-                        ]
-                        ev.watch = lambda c: c.endswith("::spawn_analysis") or c.endswith("::spawn_writer")
-                        try:
-                            recs_ = [o for o in ev.collect_ifs(pr, [_Sym("cfg"), _Sym("loader"), _Sym("stat_send"), _Sym("stop")]) if "call" in o and not o.get("closure")]
-                        except _Uns as e:
-                            undecided.append("%s" % e)
-                            recs_ = []
-                        finally:
-                            ev.call_hooks = []
-                            ev.watch = None
-                        live = [o for o in recs_ if not any(g in ("false", "not true") for g in o["guard"])]
-                        if any(g not in ("true", "not false") for o in live for g in o["guard"]):
-                            undecided.append("check=%s view=%s filter=%s output=%s" % (chk, vw, flt, om))
-                        if len(live) > 1:
-                            many.append("check=%s view=%s filter=%s output=%s → %s" % (chk, vw, flt, om, [o["call"].split("::")[-1] for o in live]))
+        table = process_consumers(f, ev)
+        many, undecided, n_comb = [], [], len(table)
+        for (chk, vw, flt, om), (names, und) in sorted(table.items()):
+            if und:
+                undecided.append("check=%s view=%s filter=%s output=%s%s" % (chk, vw, flt, om, (": " + und) if isinstance(und, str) else ""))
+            if len(names) > 1:
+                many.append("check=%s view=%s filter=%s output=%s → %s" % (chk, vw, flt, om, names))
         rep.check(not many and not undecided, "R5.6", "R5.6|single_consumer_of_batches", "in each of the %d option combinations process() gives the reader's batch channel to at most one consumer thread" % n_comb, pr,
                   "process() starts more than one consumer of the reader's batch channel (the batches are then split between them by scheduling): %s%s" % (many[:4], (" — undecided: %s" % undecided[:3]) if undecided else ""))
     else:
